@@ -698,6 +698,40 @@ func (env *specEnv) call(t *ast.CallExpr) SVal {
 		// same backing pointer
 		a, b := env.eval(t.Args[0]), env.eval(t.Args[1])
 		return SVal{V: Scalar{T: c.PtrEq(dataPtr(a.V), dataPtr(b.V))}, T: boolT}
+	case "windowif":
+		// windowif(c, p, n): c ==> window(p, n), with the extent recorded under the condition c when assumed
+		cond := env.boolTerm(env.eval(t.Args[0]))
+		pv := env.eval(t.Args[1])
+		n := env.asInt64(env.toType(env.eval(t.Args[2]), intT))
+		p := dataPtr(pv.V)
+		if env.assume {
+			env.e.pendingExt = append(env.e.pendingExt, extent{R: p.R, Lo: p.O, Hi: c.Add(p.O, n), Cond: cond})
+			return SVal{V: Scalar{T: c.Implies(cond, c.And(c.Sle(c.Const(64, 0), n), c.Slt(n, c.Const(64, 1<<40)), c.Ult(p.O, c.Const(64, 1<<47)),
+				c.Implies(c.Slt(c.Const(64, 0), n), c.Not(c.IsNil(p)))))}, T: boolT}
+		}
+		var alts []*Term
+		for _, x := range env.ext {
+			off, size := c.Sub(p.O, x.Lo), c.Sub(x.Hi, x.Lo)
+			in := c.And(c.Eq(p.R, x.R), c.Ule(off, size), c.Ule(n, c.Sub(size, off)))
+			if x.Cond != nil {
+				in = c.And(x.Cond, in)
+			}
+			alts = append(alts, in)
+		}
+		alts = append(alts, c.Eq(n, c.Const(64, 0)))
+		return SVal{V: Scalar{T: c.Implies(cond, c.And(c.Sle(c.Const(64, 0), n), c.Or(alts...)))}, T: boolT}
+	case "dyntype":
+		// dyntype(x, T): the dynamic type of interface value x is T
+		v := env.eval(t.Args[0])
+		iv, ok := v.V.(Iface)
+		if !ok {
+			specErr("dyntype of non-interface")
+		}
+		ty := env.typeOfExpr(t.Args[1])
+		if ty == nil {
+			specErr("dyntype: unknown type")
+		}
+		return SVal{V: Scalar{T: c.Eq(iv.Typ, c.Const(TypW, uint64(env.e.typeID(ty))))}, T: boolT}
 	case "window":
 		// window(p, n): the n bytes at pointer p are valid memory. Assumed: recorded as an extent;
 		// proved: must lie within memory known to be valid.
@@ -705,13 +739,17 @@ func (env *specEnv) call(t *ast.CallExpr) SVal {
 		n := env.asInt64(env.toType(env.eval(t.Args[1]), intT))
 		p := dataPtr(pv.V)
 		if env.assume {
-			env.e.pendingExt = append(env.e.pendingExt, extent{p.R, p.O, c.Add(p.O, n)})
+			env.e.pendingExt = append(env.e.pendingExt, extent{R: p.R, Lo: p.O, Hi: c.Add(p.O, n)})
 			return SVal{V: Scalar{T: c.And(c.Sle(c.Const(64, 0), n), c.Slt(n, c.Const(64, 1<<40)), c.Ult(p.O, c.Const(64, 1<<47)))}, T: boolT}
 		}
 		var alts []*Term
 		for _, x := range env.ext {
 			off, size := c.Sub(p.O, x.Lo), c.Sub(x.Hi, x.Lo)
-			alts = append(alts, c.And(c.Eq(p.R, x.R), c.Ule(off, size), c.Ule(n, c.Sub(size, off))))
+			in := c.And(c.Eq(p.R, x.R), c.Ule(off, size), c.Ule(n, c.Sub(size, off)))
+			if x.Cond != nil {
+				in = c.And(x.Cond, in)
+			}
+			alts = append(alts, in)
 		}
 		alts = append(alts, c.Eq(n, c.Const(64, 0)))
 		return SVal{V: Scalar{T: c.And(c.Sle(c.Const(64, 0), n), c.Or(alts...))}, T: boolT}
@@ -903,6 +941,9 @@ func (env *specEnv) callPure(pf *PureFn, args []ast.Expr) SVal {
 		}
 		penv.vars[pp.Name] = SVal{V: av.V, T: pt}
 	}
+	if pf.Rec {
+		return env.e.recApp(pf, penv)
+	}
 	r := penv.eval(pf.Body.Expr)
 	env.newFacts = append(env.newFacts, penv.newFacts...)
 	if pf.Res != "" {
@@ -931,3 +972,182 @@ func (env *specEnv) convert(v SVal, to types.Type) SVal {
 }
 
 func parserParseExpr(s string) (ast.Expr, error) { return parseExprCached(s) }
+
+// ---------------------------------------------------------------------------------------------
+// Recursive specification functions (DESIGN §4): an application is an uninterpreted-function term over
+// the byte heap and the leaf terms of the arguments; its defining equation is instantiated by the
+// generator for the applications occurring in a query, to a fixed depth (fuel).
+
+type recInfo struct {
+	pf   *PureFn
+	vars map[string]SVal
+	heap Heap
+}
+
+// recSynRegion: synthetic region ids under which the byte arrays of slice/string arguments are mounted
+// when a defining equation is evaluated (the application itself carries the inner arrays, so that writes
+// to other regions do not change it).
+const recSynRegion = 0x7ff000
+
+// flattenRec lists the argument terms of a rec application: scalars as they are, slices/strings as
+// (inner byte array, offset, length).
+func flattenRec(c *Ctx, h *Heap, v Value, out *[]*Term) {
+	switch x := v.(type) {
+	case Scalar:
+		*out = append(*out, x.T)
+	case Slice:
+		*out = append(*out, c.Select(h.K[K8], x.P.R), x.P.O, x.Len)
+	case Str:
+		*out = append(*out, c.Select(h.K[K8], x.P.R), x.P.O, x.Len)
+	default:
+		specErr("rec function argument of kind %T", v)
+	}
+}
+
+func (e *Engine) recApp(pf *PureFn, penv *specEnv) SVal {
+	c := e.C
+	var args []*Term
+	for _, pp := range pf.Params {
+		flattenRec(c, penv.heap, penv.vars[pp.Name].V, &args)
+	}
+	rt := penv.parseTypeString(pf.Res)
+	var sort *Sort
+	if isBool(rt) {
+		sort = BoolSort()
+	} else {
+		w, _, ok := intInfo(rt)
+		if !ok {
+			specErr("rec function %s: result type %s", pf.Name, rt)
+		}
+		sort = BV(w)
+	}
+	name := "rec." + pf.PkgPath + "." + pf.Name
+	app := c.App(name, sort, args...)
+	if e.recFns == nil {
+		e.recFns = map[string]*PureFn{}
+	}
+	e.recFns[name] = pf
+	return SVal{V: Scalar{T: app}, T: rt}
+}
+
+// recInfoFor rebuilds the argument binding of an application from its argument terms.
+func (e *Engine) recInfoFor(app *Term) *recInfo {
+	if e.recApps == nil {
+		e.recApps = map[*Term]*recInfo{}
+	}
+	if ri := e.recApps[app]; ri != nil {
+		return ri
+	}
+	pf := e.recFns[app.Name]
+	if pf == nil {
+		return nil
+	}
+	c := e.C
+	penv := &specEnv{e: e, bound: map[string]*Term{}}
+	if p, ok := e.P.All[pf.PkgPath]; ok {
+		penv.pkg = p.Types
+	}
+	var h Heap
+	for k := 0; k < NKinds; k++ {
+		h.K[k] = c.Var("recheap."+kindName[k], heapSort(k))
+	}
+	vars := map[string]SVal{}
+	i := 0
+	ok := true
+	func() {
+		defer func() {
+			if r := recover(); r != nil {
+				ok = false
+			}
+		}()
+		for n, pp := range pf.Params {
+			pt := penv.parseTypeString(pp.Type)
+			isSl := false
+			if _, yes := pt.Underlying().(*types.Slice); yes {
+				isSl = true
+			}
+			if isSl || isString(pt) {
+				rg := c.Const(RgnW, uint64(recSynRegion+n))
+				h.K[K8] = c.Store(h.K[K8], rg, app.Args[i])
+				if isSl {
+					vars[pp.Name] = SVal{V: Slice{Ptr{rg, app.Args[i+1]}, app.Args[i+2], app.Args[i+2]}, T: pt}
+				} else {
+					vars[pp.Name] = SVal{V: Str{Ptr{rg, app.Args[i+1]}, app.Args[i+2]}, T: pt}
+				}
+				i += 3
+			} else {
+				vars[pp.Name] = SVal{V: Scalar{T: app.Args[i]}, T: pt}
+				i++
+			}
+		}
+	}()
+	if !ok || i != len(app.Args) {
+		return nil
+	}
+	ri := &recInfo{pf: pf, vars: vars, heap: h}
+	e.recApps[app] = ri
+	return ri
+}
+
+// recDefinition returns app == body(args), evaluating the body once (its recursive calls become new
+// applications).
+func (e *Engine) recDefinition(app *Term) *Term {
+	ri := e.recInfoFor(app)
+	if ri == nil {
+		return nil
+	}
+	if d, ok := e.recDefs[app]; ok {
+		return d
+	}
+	if e.recDefs == nil {
+		e.recDefs = map[*Term]*Term{}
+	}
+	h := ri.heap
+	penv := &specEnv{e: e, heap: &h, bound: map[string]*Term{}, vars: ri.vars}
+	if p, ok := e.P.All[ri.pf.PkgPath]; ok {
+		penv.pkg = p.Types
+	}
+	var def *Term
+	func() {
+		defer func() {
+			if r := recover(); r != nil {
+				def = nil
+			}
+		}()
+		body := penv.eval(ri.pf.Body.Expr)
+		rt := penv.parseTypeString(ri.pf.Res)
+		if body.T == nil {
+			body = penv.toType(body, rt)
+		}
+		def = e.C.Eq(app, body.V.(Scalar).T)
+	}()
+	e.pendingWF = e.pendingWF[:0]
+	e.pendingVals = e.pendingVals[:0]
+	e.recDefs[app] = def
+	return def
+}
+
+// unfoldRecs adds the defining equations of the rec applications occurring in the given terms, to the
+// given depth.
+func (e *Engine) unfoldRecs(terms []*Term, fuel int) []*Term {
+	var out []*Term
+	seen := map[*Term]bool{}
+	work := terms
+	for d := 0; d < fuel && len(work) > 0; d++ {
+		var apps []*Term
+		Walk(work, func(t *Term) {
+			if t.Op == OApp && !seen[t] && strings.HasPrefix(t.Name, "rec.") {
+				seen[t] = true
+				apps = append(apps, t)
+			}
+		})
+		work = nil
+		for _, a := range apps {
+			if def := e.recDefinition(a); def != nil {
+				out = append(out, def)
+				work = append(work, def)
+			}
+		}
+	}
+	return out
+}
